@@ -1101,18 +1101,39 @@ impl<'a, S: Source + 'a> Constructed<'a, S> {
 
     /// Skips over content.
     pub fn skip_opt<F>(
+        &mut self, op: F,
+    ) -> Result<Option<()>, DecodeError<S::Error>>
+    where F: FnMut(Tag, bool, usize) -> Result<(), ContentError> {
+        // The stack for unrolling the recursion. For each level, we keep the
+        // limit the source should be set to when the value ends. For
+        // indefinite values, we keep `None`.
+        let mut stack = SmallVec::<[Option<Option<usize>>; 4]>::new();
+
+        let res = self.skip_opt_with(op, &mut stack);
+        if res.is_err() {
+            // Keep the limit in step with the position if skipping failed:
+            // what is left of each value still open is what is left of
+            // the value inside it plus whatever follows that.
+            let mut limit = self.source.limit();
+            while let Some(frame) = stack.pop() {
+                if let Some(outer) = frame {
+                    limit = outer.map(|x| x + limit.unwrap_or(0));
+                }
+            }
+            self.source.set_limit(limit);
+        }
+        res
+    }
+
+    fn skip_opt_with<F>(
         &mut self, mut op: F,
+        stack: &mut SmallVec<[Option<Option<usize>>; 4]>,
     ) -> Result<Option<()>, DecodeError<S::Error>>
     where F: FnMut(Tag, bool, usize) -> Result<(), ContentError> {
         // If we already know we are at the end of the value, we can return.
         if self.is_exhausted() {
             return Ok(None)
         }
-
-        // The stack for unrolling the recursion. For each level, we keep the
-        // limit the source should be set to when the value ends. For
-        // indefinite values, we keep `None`.
-        let mut stack = SmallVec::<[Option<Option<usize>>; 4]>::new();
 
         loop {
             // Get a the ‘header’ of a value. At the top level, the end of
@@ -1140,8 +1161,8 @@ impl<'a, S: Source + 'a> Constructed<'a, S> {
                     // indefinite value for it to be allowed. If it is, pop
                     // that value off the stack and continue. The limit is
                     // still that from the value one level above.
-                    match stack.pop() {
-                        Some(None) => { }
+                    match stack.last() {
+                        Some(None) => { stack.pop(); }
                         None => {
                             // We read end-of-value as the very first value.
                             // This can only happen if the outer value is
